@@ -24,7 +24,7 @@ A0 == [ nOde |-> 0, nOdeJ |-> 0, nJac |-> 0, nEv |-> 0, nCb |-> 0,
         evalOut |-> 0, maxEval |-> -1,
         lastX |-> -1, lastXb |-> "", interrupted |-> FALSE, afterStop |-> 0,
         modPending |-> "", modBad |-> 0, cbBad |-> 0, ipBad |-> 0, active |-> FALSE,
-        recent |-> {}, derivBad |-> 0 ]
+        recent |-> {}, needDeriv |-> "", derivBad |-> 0 ]
 
 TraceInit == l = 1 /\ C = NoCall /\ A = A0
 
@@ -53,7 +53,8 @@ TraceOde ==
                          !.afterStop = IF A.interrupted THEN @ + 1 ELSE @,
                          !.modBad = IF modok THEN @ ELSE @ + 1,
                          !.modPending = IF plain THEN "" ELSE @,
-                         !.recent = IF plain THEN @ \cup {e.d} ELSE @]
+                         !.recent = IF plain THEN @ \cup {e.d} ELSE @,
+                         !.needDeriv = IF plain /\ e.d = @ THEN "" ELSE @]
     /\ UNCHANGED C
 
 TraceJac ==
@@ -81,14 +82,16 @@ TraceCb ==
                       /\ (C.lowdense => e.hasip) /\ e.ip.b_ok   \* interpolant valid on exactly that interval
            ok == IF first THEN okFirst ELSE okStep
            ipok == first \/ ~e.hasip \/ (e.ip.l_ok /\ e.ip.r_ok /\ (e.ip.fin \/ ~e.fin))
-           \* the derivative the next step starts from is f at the accepted state: the one-step methods evaluate
-           \* f(x_new, y_new) before handing the step to SolOut (BDF works on differences instead)
-           derivok == first \/ C.method = "BDF" \/ e.d \in A.recent
+           \* the derivative a step starts from is f at the accepted state it starts from: the one-step methods must
+           \* have evaluated f(x_k, y_k) - before handing step k to SolOut or afterwards - by the time step k+1 is
+           \* accepted (BDF works on differences instead)
+           derivok == A.needDeriv = ""
+           need == IF first \/ C.method = "BDF" \/ e.d \in A.recent THEN "" ELSE e.d
        IN A' = [A EXCEPT !.nCb = @ + 1,
                          !.cbBad = IF ok THEN @ ELSE @ + 1,
                          !.ipBad = IF ipok THEN @ ELSE @ + 1,
                          !.derivBad = IF derivok THEN @ ELSE @ + 1,
-                         !.recent = {},
+                         !.recent = {}, !.needDeriv = need,
                          !.lastX = e.x.r, !.lastXb = e.x.b,
                          !.afterStop = IF A.interrupted THEN @ + 1 ELSE @,
                          !.interrupted = (e.ret = "Interrupt"),
